@@ -34,6 +34,8 @@ int  dense_inverse(int n, const dmat *A, dmat *Ainv);          /* 0 ok, 1 singul
 xr   dense_norm(const dmat *A, int inf);                       /* 1-norm or inf-norm (true modulus) */
 void transpose_dm(const dmat *A, dmat *At);
 
+/* elimination tree from its definition: parent[k] = min{ i > k : L(i,k) != 0 } in the symbolic Cholesky factor of (F Pc)'(F Pc) (sym=0) or of Pc'(F+F')Pc (sym=1); F = factored orientation */
+void ref_etree(const dmat *F, const int *perm_c, int n, int sym, int *parent);
 /* oracles on a finished call */
 int  o_scaling(const xs *s, const dmat *A_in, const dmat *B_in, int trans, int equil, vres *r);
 int  o_solution(const xs *s, int trans, const dmat *Bafter, vres *r, double *ratio, int *nr_conj_quirk);
